@@ -49,7 +49,7 @@ def c_density(ctx, args):
     cs = [complex(c) for c in dm.cs]
     if any(abs(c - 2.0 ** (-n)) > 1e-15 for c in cs):
         return {'kind': 'oracle', 'where': 'np:density_matrix weights', 'observed': cs[:4], 'expected': 2.0 ** (-n)}
-    if ctx.model is not None and not ctx.search:
+    if ctx.model is not None and not ctx.search and n - t[1] <= 10:
         want = ctx.model.call('density_terms', t)
         if terms != want:
             return {'kind': 'corr', 'where': 'np:density_matrix terms vs model', 'observed': terms, 'expected': want}
@@ -182,6 +182,11 @@ def run(ctx):
         if n - t[1] <= 5:
             do(ctx, 'density', [t], nontrivial=('d', it) if nt else None)
         ctx.res.count('rank%d_N%d' % (t[1], n))
+    # LARGE groups: the expansion enumerates 2^(N-r) selections through their binary representations -- more generators than fit one byte, two bytes
+    for k, n in ([(8, 8), (9, 9), (9, 10), (10, 11), (12, 12)] + ([(15, 15), (16, 16), (17, 17)] if ctx.tier == 'thorough' and not ctx.is_worker else [])):
+        t = gen.rtableau(rng, ctx.model, n, r=n - k)
+        do(ctx, 'density', [t], nontrivial=('dl', k, n))
+        ctx.res.count('density_generators_%d' % k)
     for it in range(int(70 * B)):
         n = rng.randint(1, 4)
         t = gen.rtableau(rng, ctx.model, n)
